@@ -48,7 +48,9 @@ func sysSocket(family, sotype, proto int) (int, error) {
 	if err != nil {
 		return -1, os.NewSyscallError("socket", err)
 	}
+	verifFD(vfdDialSocket, nil, s)
 	if err = syscall.SetNonblock(s, true); err != nil {
+		verifFD(-vfdDialSocket, nil, s)
 		syscall.Close(s)
 		return -1, os.NewSyscallError("setnonblock", err)
 	}
